@@ -364,40 +364,54 @@ def strictExtBlock (s : Bytes) : Option Bytes :=
     | some (e, []) => if isNil e then none else some e
     | _ => none
 
+/-- status_request in a ServerHello: status_type ocsp(1), OCSPStatusResponse<1..2^24-1> -/
+def sOcspOf (o : Option Bytes) : Option (Bool × Bytes) :=
+  match o with
+  | none => some (false, [])
+  | some d =>
+    match d with
+    | 1 :: r =>
+      (match readVec24 r with
+       | some (resp, []) => if isNil resp then none else some (true, resp)
+       | _ => none)
+    | _ => none
+
+/-- ALPN in a ServerHello: a list with exactly one non-empty protocol name -/
+def sAlpnOf (o : Option Bytes) : Option Bytes :=
+  match o with
+  | none => some []
+  | some d =>
+    match readVec16 d with
+    | some (lst, []) =>
+      (match nonEmptyVec8 lst with
+       | some (p, []) => some p
+       | _ => none)
+    | _ => none
+
+/-- server_name acknowledgement: empty extension data -/
+def sAckOf (o : Option Bytes) : Option Bool :=
+  match o with
+  | none => some false
+  | some [] => some true
+  | some _ => none
+
 def strictServerExts (e : Bytes) : Option (Bool × Bytes × Bytes × Bool) :=
   match optExt 5 e with
   | none => none
   | some (o, e1) =>
-  match (match o with
-         | none => some (false, ([] : Bytes))
-         | some d =>
-           match d with
-           | 1 :: r => (match readVec24 r with
-                        | some (resp, []) => if isNil resp then none else some (true, resp)
-                        | _ => none)
-           | _ => none) with
+  match sOcspOf o with
   | none => none
   | some (ocsp, resp) =>
   match optExt 16 e1 with
   | none => none
   | some (a, e2) =>
-  match (match a with
-         | none => some ([] : Bytes)
-         | some d =>
-           match readVec16 d with
-           | some (lst, []) => (match nonEmptyVec8 lst with
-                                | some (p, []) => some p
-                                | _ => none)
-           | _ => none) with
+  match sAlpnOf a with
   | none => none
   | some alpn =>
   match optExt 0 e2 with
   | none => none
   | some (n, e3) =>
-  match (match n with
-         | none => some false
-         | some [] => some true
-         | some _ => none) with
+  match sAckOf n with
   | none => none
   | some ack => if isNil e3 then some (ocsp, resp, alpn, ack) else none
 
@@ -458,46 +472,55 @@ def withExt {α : Type} (o : Option Bytes) (dflt : α) (p : Bytes → Option α)
   | none => some dflt
   | some d => p d
 
+def cSniOf (d : Bytes) : Option Bytes :=
+  (inVec16 d).bind fun lst =>
+    match lst with
+    | 0 :: r =>
+      (match nonEmptyVec16 r with
+       | some (name, []) => if noTrailingDot name then some name else none
+       | _ => none)
+    | _ => none
+
+def cTasOf (d : Bytes) : Option (List TA) := (inVec16 d).bind fun lst => many strictTA lst.length lst
+def cStatusOf (d : Bytes) : Option Bool := if d = [1, 0, 0, 0, 0] then some true else none
+def cW16sOf (d : Bytes) : Option (List W16) := (inVec16 d).bind fun lst => many readW16 lst.length lst
+def cAlpnOf (d : Bytes) : Option (List Bytes) := (inVec16 d).bind fun lst => many nonEmptyVec8 lst.length lst
+
 def strictClientExts (e : Bytes) : Option ClientExts :=
   match optExt 0 e with
   | none => none
   | some (o1, e1) =>
-  match withExt o1 [] (fun d => (inVec16 d).bind fun lst =>
-          match lst with
-          | 0 :: r => (match nonEmptyVec16 r with
-                       | some (name, []) => if noTrailingDot name then some name else none
-                       | _ => none)
-          | _ => none) with
+  match withExt o1 [] cSniOf with
   | none => none
   | some sni =>
   match optExt 3 e1 with
   | none => none
   | some (o2, e2) =>
-  match withExt o2 [] (fun d => (inVec16 d).bind fun lst => many strictTA lst.length lst) with
+  match withExt o2 [] cTasOf with
   | none => none
   | some tas =>
   match optExt 5 e2 with
   | none => none
   | some (o3, e3) =>
-  match withExt o3 false (fun d => if d = [1, 0, 0, 0, 0] then some true else none) with
+  match withExt o3 false cStatusOf with
   | none => none
   | some ocsp =>
   match optExt 10 e3 with
   | none => none
   | some (o4, e4) =>
-  match withExt o4 [] (fun d => (inVec16 d).bind fun lst => many readW16 lst.length lst) with
+  match withExt o4 [] cW16sOf with
   | none => none
   | some curves =>
   match optExt 13 e4 with
   | none => none
   | some (o5, e5) =>
-  match withExt o5 [] (fun d => (inVec16 d).bind fun lst => many readW16 lst.length lst) with
+  match withExt o5 [] cW16sOf with
   | none => none
   | some sigs =>
   match optExt 16 e5 with
   | none => none
   | some (o6, e6) =>
-  match withExt o6 [] (fun d => (inVec16 d).bind fun lst => many nonEmptyVec8 lst.length lst) with
+  match withExt o6 [] cAlpnOf with
   | none => none
   | some alpn =>
   match optExt 66 e6 with
@@ -506,6 +529,12 @@ def strictClientExts (e : Bytes) : Option ClientExts :=
   match withExt o7 [] inVec16 with
   | none => none
   | some cid => if isNil e7 then some ⟨sni, tas, ocsp, curves, sigs, alpn, cid⟩ else none
+
+/-- the DTLCP-only cookie vector of a ClientHello -/
+def readCookie (st : Stack) (s : Bytes) : Option (Bytes × Bytes) :=
+  match st with
+  | .dtlcp => readVec8 s
+  | .tlcp => some ([], s)
 
 def strictClientHello (st : Stack) (b : Bytes) : Option (DHdr × ClientHello) :=
   match strictHeader st .clientHello b with
@@ -520,7 +549,7 @@ def strictClientHello (st : Stack) (b : Bytes) : Option (DHdr × ClientHello) :=
   match readVec8 s2 with
   | none => none
   | some (sid, s3) =>
-  match (match st with | .dtlcp => readVec8 s3 | .tlcp => some ([], s3)) with
+  match readCookie st s3 with
   | none => none
   | some (ck, s4) =>
   match nonEmptyVec16 s4 with
